@@ -5,7 +5,10 @@ Tie: every xreplace / subs / msubs / ssubs call of generated cases is recomputed
 of the expression and of the map, once with and once without the cache (result tree and hash compared).
 Oracles on the library's outputs (driver, independent of the model): cache on/off results eq; identity map and
 absent symbols return an eq expression; exact evaluation of the result at rational points against evaluation of the
-input under the valuation updated with the values of the replacements (FunctionSymbols as uninterpreted functions)."""
+input under the valuation updated with the values of the replacements (FunctionSymbols as uninterpreted functions).
+Guard of the tie: the model identifies the visitors' pointer tests `result == child` with structural equality; runs in which
+the library rebuilt a structurally unchanged (b**-1)**q with pow() (which collapses it to b**(-q)) are not compared with the
+model (see `pow_collapsed`, ctx.assumptions); the oracles report them under the keys C11/...:Pow-collapse."""
 import vlib
 from checks import arithcommon as A
 from checks import expsubscommon as E
@@ -118,6 +121,10 @@ CORPUS = [
     ("subs", "(pw x (lt x y) y true)", [("z", "(i 1)")]), ("subs", "(contains x (interval (i 0) (i 1) 0 0))", [("z", "(i 1)")]),
     ("subs", "(add oo x)", [("x", "(i 1)")]), ("subs", "(mul x (d 4000000000000000))", [("x", "(i 3)")]), ("subs", "(pow E x)", [("x", "(i 2)")]),
     ("subs", "(pow E x)", [("E", "(i 2)")]), ("subs", "(mul pi x)", [("pi", "(i 3)")]), ("subs", "(dum a)", [("x", "(i 1)")]),
+    # known findings C11/...:Pow-collapse: a structurally unchanged (z**-1)**q is rebuilt by pow() when the pointer test fails
+    ("xreplace", "(pow (div (i 2) z) (q 1 4))", [("w", "(q 1 2)")]), ("subs", "(pow (div (i 3) z) (q 1 2))", [("x", "x")]),
+    ("xreplace", "(pow (div (i 2) z) (q 1 2))", [("(pow z (i -1))", "(pow z (i -1))")]),
+    ("subs", "(mul (add y x) (pow (div (q 7 3) E) (q 1 3)))", [("x", "(neg z)")]), ("xreplace", "(pow (div (i 2) z) (q 1 4))", [("z", "y")]),
 ]
 
 
@@ -142,6 +149,60 @@ def nested_add_key(dump):
     return bool(hit)
 
 
+POWCOLLAPSE = "Pow-collapse"
+
+
+def collapse(dump):
+    """(text of the dump after rewriting every (b**-1)**q, q a Rational -- a key Pow(b, -1) with exponent q of a Mul
+    dictionary, as Mul::power_num builds it, or a node Pow(Pow(b, -1), q) -- to b**(-q), which is what the pow()
+    constructor returns for it (pow.cpp, "Convert (x**-1)**b = x**(-b)"; root cause of the known finding
+    C35/refine-value:Pow-collapse), with Add and Mul dictionaries sorted by text; number of rewritten nodes);
+    (None, 0) when the rewriting would have to merge two dictionary entries"""
+    hits = [0]
+
+    def negq(ex):
+        return ["Q", str(-int(ex[1])), ex[2]]
+
+    def is_recip(b):
+        return isinstance(b, list) and len(b) == 3 and b[0] == "Pow" and b[2] == ["I", "-1"]
+
+    def isq(ex):
+        return isinstance(ex, list) and len(ex) == 3 and ex[0] == "Q"
+
+    def go(u):
+        if isinstance(u, str) or not u:
+            return u
+        if u[0] == "Pow" and len(u) == 3 and is_recip(u[1]) and isq(u[2]):
+            hits[0] += 1
+            return ["Pow", go(u[1][1]), negq(u[2])]
+        if u[0] == "Mul":
+            ents = []
+            for ent in u[2:]:
+                if isinstance(ent, list) and len(ent) == 2 and is_recip(ent[0]) and isq(ent[1]):
+                    hits[0] += 1
+                    ents.append([go(ent[0][1]), negq(ent[1])])
+                else:
+                    ents.append(go(ent))
+            bases = [A.show_sexp(e[0]) for e in ents if isinstance(e, list) and len(e) == 2]
+            if len(set(bases)) != len(bases):
+                raise ValueError("merge")
+            return ["Mul", go(u[1])] + sorted(ents, key=A.show_sexp)
+        return [go(k) for k in u]
+    try:
+        return A.show_sexp(A.canon_sexp(go(A.parse_sexp(dump)))), hits[0]
+    except (ValueError, IndexError):
+        return None, 0
+
+
+def pow_collapsed(before, after):
+    """does `after` differ from `before` exactly by Pow-collapses of `before` (see collapse)?"""
+    if before.startswith("EXN") or after.startswith("EXN"):
+        return False
+    cb, nb = collapse(before)
+    ca, na = collapse(after)
+    return cb is not None and cb == ca and na < nb and E.canon_dump(before) != E.canon_dump(after)
+
+
 def case_line(kind, e, pairs):
     return "S %s ;; %s%s" % (kind, e, "".join(" ;; %s ;; %s" % p for p in pairs))
 
@@ -159,6 +220,7 @@ def run(ctx):
         explore(ctx, drv, model, [gen_case(rng) for _ in range(6000)], stats, search=True)
     ctx.cov["distinct_nontrivial"] = len(stats.get("nontrivial", ()))
     ctx.cov["calls_outside_model_skipped"] = stats.get("skipped", 0)
+    ctx.cov["pointer_identity_rebuilds_skipped"] = stats.get("ptr_skipped", 0)
     ctx.cov["value_points_evaluated"] = stats.get("points", 0)
     ctx.cov["cases_no_key_occurs"] = stats.get("absent", 0)
     ctx.cov["cases_keys_consistent"] = stats.get("consistent", 0)
@@ -173,7 +235,12 @@ def run(ctx):
                        "(case, cache mode) pairs compared with the model; a case is non-trivial when the result differs from the expression; distinct "
                        "= distinct (kind, expression dump, map dumps)")
     ctx.assumptions += [
-        "pointer comparisons `result == x.get_arg()` are modelled by structural equality (the dumps do not record sharing)",
+        "pointer comparisons `result == x.get_arg()` are modelled by structural equality (the dumps do not record sharing).  GUARD of the "
+        "correspondence: the library's pointer test also fails on a structurally unchanged child whose result is another object (the cache "
+        "entry of an equal subterm visited elsewhere, or the value of an identity pair of the map); the node is then rebuilt by pow(), which "
+        "returns an equal node except that it collapses (b**-1)**q to b**(-q).  A (case, cache mode) whose library result is the model's "
+        "result with some of its (b**-1)**q collapsed (and nothing else changed) is outside the modelled fragment: counted in "
+        "pointer_identity_rebuilds_skipped and not compared; its property violations are reported by the oracles (keys ...:Pow-collapse)",
         "function / relational / boolean / set constructors are outside the model: such a node is taken as unchanged when all its children are unchanged, "
         "and the call is skipped (UNMODELLED) otherwise; FunctionSymbol::create is modelled",
         "Derivative and Subs nodes are outside the model (there MSubsVisitor = XReplaceVisitor and SSubsVisitor = SubsVisitor by inheritance)",
@@ -214,11 +281,11 @@ def explore(ctx, drv, model, cases, stats, search=False):
         stats["kinds"][kind] = stats["kinds"].get(kind, 0) + 1
         if npts.isdigit():
             stats["points"] = stats.get("points", 0) + int(npts)
-        cls = "nested-add-key" if nested_add_key(edump) else "other"
+        cls = "nested-add-key" if nested_add_key(edump) else POWCOLLAPSE if pow_collapsed(edump, r1) else "other"
         for o in oracles:
             what = o.split(" ;; ")[0].strip()
             if what == "cache":
-                ctx.violation("C11/cache-dependent", "%s with and without the cache differ: %s -> %s vs %s" % (kind, line[2:300], r1[:300], r0[:300]), rp)
+                ctx.violation("C11/cache-dependent" + (":" + POWCOLLAPSE if pow_collapsed(r0, r1) else ""), "%s with and without the cache differ: %s -> %s vs %s" % (kind, line[2:300], r1[:300], r0[:300]), rp)
             elif what == "identity":
                 ctx.violation("C11/identity-map-changes:" + cls, "%s with an identity map returns a different expression: %s -> %s" % (kind, line[2:300], r1[:300]), rp)
             elif what == "absent":
@@ -244,6 +311,12 @@ def explore(ctx, drv, model, cases, stats, search=False):
         v = E.compare_result(r, h, mout)
         if v == "skip":
             stats["skipped"] = stats.get("skipped", 0) + 1
+            continue
+        if v != "ok" and v.startswith("result differs") and pow_collapsed(mout.partition(" ;; ")[0], r):
+            # guard of the correspondence (pointer identity, see ctx.assumptions): the library rebuilt a structurally
+            # unchanged node with pow(), which collapsed (b**-1)**q; the property violations that follow from it are
+            # reported by the oracles above (known findings C11/...:Pow-collapse)
+            stats["ptr_skipped"] = stats.get("ptr_skipped", 0) + 1
             continue
         ctx.cov["traces_validated_against_impl"] += 1
         if v != "ok":
